@@ -7,7 +7,21 @@
    M, `@-` counts down so that the last copy gets the start value; the counter is that of the
    nearest repeated element or group containing the place (itself included), 1 when there is none.
    With a maxRepeat limit M copies are completed in document order until M have been completed in
-   total; from then on every repeater still running or met later yields just one copy. *)
+   total; from then on every repeater still running or met later yields just one copy.
+
+   What is proved, for ALL inputs: the tokens of every numbering form (C02_tokenize_numbering*), the
+   value and padding a `$` run prints under a repeater stack (C02_numbering_*, C02_pad_*, C02_decimal),
+   and the whole converter -- copy loop, repeater stack, budget -- against a pure unrolling spec
+   (C02_limit_full = closed form for every budget; C02_convert_count, C02_guard_enough,
+   C02_guard_step, C02_guard_exhausted, C02_unrepeated_inherits as its readable consequences).
+   That the parser hands the repeater of `X*N` / `( ... )*N` to the converter on the right unit is
+   C01 (C01_parse_groups, C01_name_rep_is_gblock).  Not covered by a theorem: snippet resolution and
+   the formatter printing every node of the forest exactly once (C01 _partial); both are inside
+   the observable of the correspondence (full output string, and the converted tree with its
+   repetition tags) and of the oracle.
+   Reading of the limit clause for reversed numbering: the counter of copy i of N is start+N-i with N
+   as written, also when the limit stops the repeater early (the code, upstream and the oracle agree);
+   N = 0 is read as N = 1 (written_count), outside the statement's claim. *)
 From Emmet Require Import lib.Base model.MarkupTokenizer model.MarkupParser model.MarkupConvert
      proofs.NumberingProofs proofs.ConvertProofs.
 Local Open Scope Z_scope.
